@@ -398,6 +398,7 @@ def storm(spec, acc):
             def on_accept(conn):
                 loop.call_later(0.2, lambda: (not conn.lost and not conn.closing) and conn.feed(packet(kind, conn.id % 200)))
             sim.on_accept.append(on_accept)
+            sim.census = []
             sim.spawn("connect")
             await asyncio.sleep(1.0)
             for f_, r_ in zip(plan, refusals):
@@ -418,6 +419,10 @@ def storm(spec, acc):
                     c.fail_write_after = 0
                     sim.spawn("send", make_send_message(kind))
                 await asyncio.sleep(25.0)
+                # census at a quiescent point: tasks alive and connections still open (each recovery must leave the same
+                # picture behind - one receive path, one link)
+                sim.census.append((len([t for t in asyncio.all_tasks(loop) if not t.done()]),
+                                   len([c_ for c_ in sim.conns if not c_.lost and not c_.closing])))
             sim.n_done = len([e for e in sim.trace if e["k"] == "fault"])
             await sim.call("close")
         sim, stats = simgw.run_session(kind, scenario, max_steps=600_000)
@@ -444,6 +449,13 @@ def storm(spec, acc):
             acc.count("storm_sessions_ok")
         if any(e["k"] == "loop_monopoly" for e in sim.trace):
             acc.violation("receive-path-spins-on-end-of-stream:" + kind, f"{kind}: loop monopolised during a fault storm", w)
+        census = getattr(sim, "census", [])
+        if len(census) >= 6:
+            acc.count("storm_censuses_checked")
+            tasks = [t for t, _ in census]
+            links = [l for _, l in census]
+            if max(tasks[3:]) > max(tasks[:3]) + 1 or max(links[3:]) > max(links[:3]):
+                acc.violation("tasks-or-links-accumulate-over-reconnects", f"{kind}: live tasks after each recovery {tasks}, open links {links}: they grow with the number of faults", w)
 
 
 def run_shard(spec, acc):
